@@ -17,6 +17,17 @@ var mkWords = []string{"hello", "x", "héllo", "日本", "a b", "  ", "cat", "ü
 var mkNames = []string{"a", "b", "em", "wave", "c1", "é"}
 
 func genMarkupLine(tp *Tape, id string, allowFail bool) (string, bool) {
+	return genMarkupLineAt(tp, id, allowFail, false)
+}
+
+// genMarkupLineAt: with idLast the id word closes the line, so that the line can START with any chunk
+// (an escaped bracket, a marker); a line may also end in whitespace.
+func genMarkupLineAt(tp *Tape, id string, allowFail, idLast bool) (string, bool) {
+	if idLast {
+		body, fails := genMarkupLineAt(tp, "", allowFail, false)
+		body = strings.TrimLeft(body, " ")
+		return body + " " + id + []string{"", " ", "  "}[tp.Int(0, 2, "trailws")], fails
+	}
 	var sb strings.Builder
 	// a character prefix shared by several lines, with varying whitespace after the colon
 	if tp.Chance(30, "charprefix") {
@@ -118,7 +129,7 @@ func c14World(tp *Tape, env *Env) (*Plan, *Violation) {
 	var lines []string
 	nfail := 0
 	for i := 0; i < n; i++ {
-		l, f := genMarkupLine(tp, fmt.Sprintf("M%d", i), true)
+		l, f := genMarkupLineAt(tp, fmt.Sprintf("M%d", i), true, tp.Chance(40, "idlast"))
 		lines = append(lines, l)
 		if f {
 			nfail++
@@ -175,13 +186,20 @@ func c14Runner(tp *Tape, env *Env) (*Plan, *Violation) {
 		for i := 0; i < k; i++ {
 			id++
 			l, _ := genMarkupLine(tp, fmt.Sprintf("P%d", id), true)
-			sb.WriteString("    " + l + "\n")
+			// a tag, a comment or a condition-free line end: the text handed to the markup parser then ends in whitespace
+			sb.WriteString("    " + l + []string{"", " #t1", " // note", "  "}[tp.Int(0, 3, "linetail")] + "\n")
 		}
 	}
 	ns := tp.Int(1, 3, "nshared")
 	for i := 0; i < ns; i++ {
-		l, _ := genMarkupLine(tp, fmt.Sprintf("SH%d", i), tp.Chance(30, "sharedmayfail"))
-		sb.WriteString(l + "\n")
+		if tp.Chance(35, "sharedidlast") {
+			// the line starts with an (empty) inline expression so that any chunk - also an escaped bracket - can come first
+			l, _ := genMarkupLineAt(tp, fmt.Sprintf("SH%d", i), tp.Chance(30, "sharedmayfail"), true)
+			sb.WriteString(`{""}` + l + "\n")
+		} else {
+			l, _ := genMarkupLine(tp, fmt.Sprintf("SH%d", i), tp.Chance(30, "sharedmayfail"))
+			sb.WriteString(l + "\n")
+		}
 	}
 	sb.WriteString("===\n")
 	w := World{Readers: []ReaderSpec{{Text: sb.String()}}, Host: HostSpec{Storer: "default", Seed: "s1"}}
